@@ -47,8 +47,9 @@ def run(ctx):
     g = ctx.tlc(AREA, "CypherExprGen", cfg_text='SPECIFICATION Spec\nCONSTANTS\n  Atoms = {"a", "b", "c"}\n  EmitParens = TRUE\n  Deep = %s\n' % ("FALSE" if quick else "TRUE"),
                 workers=4, timeout=1800)
     terms = ctx.printed_json(g.out)
-    if ctx.replay:
-        terms = [json.load(open(ctx.replay))["replay"]["term"]]
+    rep = json.load(open(ctx.replay))["replay"] if ctx.replay else None
+    if rep is not None:
+        terms = [rep["term"]] if "term" in rep else terms[:1]
     if not terms:
         raise ToolFailure("no terms generated")
     tp = os.path.join(ctx.work, "terms.ndjson")
@@ -59,15 +60,20 @@ def run(ctx):
     ctx.cov["traces_validated_against_impl"] += n_ok
     ctx.cov["evaluations"] += n_ok + len(rejected)
     # 3. whole queries: returned items, DISTINCT, ORDER BY, SKIP / LIMIT, updating clauses
-    if not ctx.replay:
+    if rep is None or "shape" in rep or "create_shape" in rep:
         sg = ctx.tlc(AREA, "QueryShape", "QueryShape.cfg", workers=4, timeout=900)
         shapes = ctx.printed_json(sg.out)
-        if len(shapes) < 5000:
+        create_shapes = [x for x in shapes if "create" in x]
+        shapes = [x for x in shapes if "create" not in x]
+        if rep is not None:
+            shapes = [rep["shape"]] if "shape" in rep else shapes[:1]
+            create_shapes = [rep["create_shape"]] if "create_shape" in rep else create_shapes[:1]
+        elif len(shapes) < 5000 or len(create_shapes) < 50:
             raise ToolFailure("QueryShape printed %d descriptors:\n%s" % (len(shapes), sg.out[-1500:]))
         shp = os.path.join(ctx.work, "shapes.ndjson")
         write_ndjson(shp, shapes)
         st = os.path.join(ctx.work, "shapes-trace.ndjson")
-        ctx.vh(["front", "shapes", "--in", shp, "--out", st, "--stride", "3" if quick else "1"], timeout=1800)
+        ctx.vh(["front", "shapes", "--in", shp, "--out", st, "--stride", "1" if rep is not None else "3" if quick else "1"], timeout=1800)
         n2, rej2 = validate_histories(ctx, AREA, "CypherExprTrace", st, chunk_events=20000, max_cand=40, parallel=8)
         ctx.cov["traces_validated_against_impl"] += n2
         ctx.cov["evaluations"] += n2 + len(rej2)
@@ -81,6 +87,27 @@ def run(ctx):
                 continue
             seen_q.add(key)
             ctx.report(key, "query built from %s rendered as %r parses back as %s (%s)" % (json.dumps(exp), ev["text"], json.dumps(got), ev["note"]), {"shape": exp})
+        # 3b. create queries through both builders
+        csp = os.path.join(ctx.work, "createshapes.ndjson")
+        write_ndjson(csp, create_shapes)
+        ct = os.path.join(ctx.work, "createshapes-trace.ndjson")
+        ctx.vh(["front", "createshapes", "--in", csp, "--out", ct], timeout=900)
+        n4, rej4 = validate_histories(ctx, AREA, "CypherExprTrace", ct, chunk_events=20000, max_cand=40, parallel=2)
+        ctx.cov["traces_validated_against_impl"] += n4
+        ctx.cov["evaluations"] += n4 + len(rej4)
+        ctx.cov["create_shapes"] = len(create_shapes)
+        seen_c = set()
+        for hid, ev, events, pos in rej4:
+            f = ev["facts"]
+            what = ("panic" if ev["panic"] else "emitted-text-does-not-parse" if not ev["reparse_ok"] else
+                    "reads-a-variable-it-neither-binds-nor-creates" if not set(f["refs"]) <= set(f["bound"]) | set(f["created"]) else
+                    "create-clause-lost-or-duplicated" if f["creates"] != 1 else "builders-disagree-on-bindings")
+            key = "create-query/%s/%s" % (ev["builder"], what)
+            if key in seen_c:
+                continue
+            seen_c.add(key)
+            ctx.report(key, "create query %s built with the %s builder: %r binds %s, creates %s, reads %s; the other builder binds %s, creates %s (%s)" % (
+                json.dumps(ev["expected"]), ev["builder"], ev["text"], f["bound"], f["created"], f["refs"], ev["peer_bound"], ev["peer_created"], ev["note"]), {"create_shape": ev["expected"]})
     # 4. literals of every type, with values that need all the precision of their type
     if not ctx.replay:
         lt = os.path.join(ctx.work, "literals.ndjson")
